@@ -167,6 +167,7 @@ int main(int argc, char **argv)
   std::vector<Sched> menu = {
       {"centers-continuous", C_CONT, 4, 0, 0, 1.0, true, {}},
       {"centers-staged", C_STAGED, 2, 2, 0, 1.0, false, {}},
+      {"centers-staged-one-step-stages", C_STAGED, 1, 3, 0, 1.0, false, {}},
       {"centers-continuous-across-the-periodic-boundary", C_CONT, 4, 0, 0, 1.0, true, {}, true},
       {"k-continuous", K_CONT, 4, 0, 0, 1.0, true, {}},
       {"k-continuous-exp2", K_CONT, 5, 0, 0, 2.0, true, {}},
